@@ -154,6 +154,22 @@ def tree(rng, n, pools=None, max_arity=4, p_unary=0.15, max_chain=3,
     return {'sid': sid, 'root': root}
 
 
+LONG = [0]
+
+
+def maybe_long(rng, n, p=0.004, lo=120, hi=300):
+    """Sentence length n, or - rarely - the length of a very long sentence.
+    Uses its own random stream so that the other draws of the caller do not
+    move.  The number of long sentences drawn is reported as a stratum by
+    the runner."""
+    import random as _random
+    r = _random.Random(rng.random())
+    if r.random() < p:
+        LONG[0] += 1
+        return r.randint(lo, hi)
+    return n
+
+
 def treebank(rng, k, nmin, nmax, first_sid=1, sid_step=1, **kw):
     out = []
     sid = first_sid
